@@ -36,6 +36,11 @@ func normalizeOrigin(origin string) (bool, string) {
 		return false, ""
 	}
 
+	// An origin has no userinfo: "https://*.a@example.com" is not a wildcard for subdomains of example.com
+	if parsedOrigin.User != nil {
+		return false, ""
+	}
+
 	// Validate there is a host present. The presence of a path, query, or fragment components
 	// is checked, but a trailing "/" (indicative of the root) is allowed for the path and will be normalized
 	if parsedOrigin.Host == "" || (parsedOrigin.Path != "" && parsedOrigin.Path != "/") || parsedOrigin.RawQuery != "" || parsedOrigin.Fragment != "" {
